@@ -347,14 +347,22 @@ def run_property(prop_id, tier="quick", seed=0, jobs=None, only=None):
             results[k] = run_task(prop_id, k, tier, seed)
     else:
         ctxm = mp.get_context("spawn")
-        with cf.ProcessPoolExecutor(max_workers=jobs, mp_context=ctxm, initializer=_die_with_parent, initargs=(os.getpid(),)) as ex:
-            futs = {ex.submit(run_task, prop_id, k, tier, seed): k for k in keys}
-            for f in cf.as_completed(futs):
-                k = futs[f]
-                try:
-                    results[k] = f.result()
-                except Exception:  # noqa: BLE001
-                    results[k] = {"key": k, "error": traceback.format_exc(), "obligations": [], "covers": [], "paths": 0, "undecided": None, "bounded": [], "witnesses": {}}
+        todo, workers = list(keys), jobs
+        for attempt in range(2):
+            failed = []
+            with cf.ProcessPoolExecutor(max_workers=workers, mp_context=ctxm, initializer=_die_with_parent, initargs=(os.getpid(),)) as ex:
+                futs = {ex.submit(run_task, prop_id, k, tier, seed): k for k in todo}
+                for f in cf.as_completed(futs):
+                    k = futs[f]
+                    try:
+                        results[k] = f.result()
+                    except Exception:  # noqa: BLE001  (pool-level failure: a worker process died, e.g. killed under memory pressure)
+                        results[k] = {"key": k, "error": traceback.format_exc(), "obligations": [], "covers": [], "paths": 0, "undecided": None, "bounded": [], "witnesses": {}}
+                        failed.append(k)
+            if not failed:
+                break
+            # one retry of the tasks lost with a broken pool, in a fresh and smaller pool
+            todo, workers = failed, max(1, workers // 4)
     return finish(prop_id, mod, tier, seed, keys, results, t0, partial=only is not None)
 
 
